@@ -419,6 +419,44 @@ func TestC01Blocks(t *testing.T) {
 			_ = qf.String()
 			_, _ = qf.Equals(qf)
 		}},
+		{"Sort into the opposite and into the present order", func(qf qframe.QFrame) {
+			// the receiver is ordered on id descending: the requested order is exactly the opposite / exactly what it has
+			_ = qf.Sort(qframe.Order{Column: "id"})
+			_ = qf.Sort(qframe.Order{Column: "id", Reverse: true})
+		}},
+		{"results of earlier calls stay what they were while later calls run", func(qf qframe.QFrame) {
+			big := qframe.Filter{Column: "id", Comparator: ">=", Arg: 5}
+			makers := []func() qframe.QFrame{
+				func() qframe.QFrame { return qf.Filter(qframe.And(big, qframe.Null())) },
+				func() qframe.QFrame { return qf.Filter(qframe.And(qframe.Null(), big, qframe.Null())) },
+				func() qframe.QFrame { return qf.Filter(qframe.Or(big, qframe.Null())) },
+				func() qframe.QFrame { return qf.Filter(qframe.Not(qframe.Not(big))) },
+				func() qframe.QFrame { return qf.Sort(qframe.Order{Column: "id"}) },
+				func() qframe.QFrame { return qf.Distinct(groupby.Columns("id")) },
+				func() qframe.QFrame { return qf.Slice(2, qf.Len()-2) },
+			}
+			// (the later calls follow at once, several times: storage that was handed back for reuse is taken by the next taker)
+			for mi, mk := range makers {
+				for attempt := 0; attempt < 4; attempt++ {
+					r := mk()
+					before := r.MustIntView("id").Slice()
+					_ = qf.Filter(qframe.Filter{Column: "id", Comparator: "<", Arg: qf.Len() - 3}) // other rows at the same positions
+					_ = qf.Filter(qframe.Filter{Column: "id", Comparator: "any_bits", Arg: 6})
+					_ = qf.Filter(qframe.And(qframe.Filter{Column: "i1", Comparator: "<", Arg: 100}, qframe.Filter{Column: "id", Comparator: ">", Arg: 200}))
+					_ = qf.Sort(qframe.Order{Column: "i1"}, qframe.Order{Column: "id"})
+					_ = r.Filter(qframe.Filter{Column: "id", Comparator: "any_bits", Arg: 1})
+					after := r.MustIntView("id").Slice()
+					if len(after) != len(before) {
+						panic(fmt.Sprintf("VIOLATION: result %d of an earlier call changed its length (%d -> %d) while later calls ran", mi, len(before), len(after)))
+					}
+					for i := range before {
+						if before[i] != after[i] {
+							panic(fmt.Sprintf("VIOLATION: result %d of an earlier call changed at row %d (id %d -> %d) while later calls ran on the same receiver", mi, i, before[i], after[i]))
+						}
+					}
+				}
+			}
+		}},
 		{"views", func(qf qframe.QFrame) {
 			if v, err := qf.IntView("i1"); err == nil {
 				s := v.Slice()
@@ -448,7 +486,7 @@ func TestC01Blocks(t *testing.T) {
 		}
 		for _, op := range ops {
 			if perr := hx.Safely(func() { op.run(rev) }); perr != nil {
-				t.Fatalf("%s on a frame of %d rows panicked: %v", op.name, n, perr)
+				t.Fatalf("%s on a frame of %d rows: %v", op.name, n, perr)
 			}
 			for i, f := range family {
 				if quickSnap(f) != before[i] {
